@@ -15,19 +15,29 @@ TRANSLATE = {'modules': [
                    'Q_from_wavelength', 'wavelength_from_Q', 'dspacing_from_wavelength',
                    'dspacing_from_energy']},
 ]}
-RUN_FILES = ['Tie.v', 'Properties.v', 'FloatErr.v', 'Corr.v']
+RUN_FILES = ['Tie.v', 'Properties.v', 'FloatErr.v', 'FloatErrTrig.v', 'FloatErr32.v', 'Corr.v']
 TRUSTED = [
     'tools/py2coq.py (syntactic translator, fail-closed)',
     'coq/Sem/Val.v: model of scipp unit algebra, dtype promotion, to_unit, astype, sqrt, sin (element-wise)',
     'scipp broadcasting is pointwise (modelled; exercised with scalar/1-d/2-d operands)',
     'coq/Sem/QInst.v rational approximations of sqrt/sin (correspondence only, not used in proofs)',
     'tools/harness/kernels_impl.py + lib/kcorr.py (exact serialisation of operands/results)',
+    'coq/Sem/FlInst.v, FlInstT.v, FlInstS.v: rounding-error instances of the arithmetic record (Flocq FLX 53 / FLX 24 round-to-nearest-even, '
+    'unbounded exponent); FlInstS is set-valued: every * / sqrt sin may cast either operand to binary32/binary64 and rounds the result to '
+    'binary32/binary64; comparisons there decide on exact values (no C01 kernel compares numbers)',
 ]
 ASSUMPTIONS = [
     'IEEE arithmetic without overflow/underflow of intermediates (float32 cases are generated in natural units only)',
-    'FloatErr.v: for wavelength_from_tof, energy_from_tof, energy_from_wavelength, wavelength_from_energy with float64 operands every '
-    'rounding step (binary64, unbounded exponent range = no overflow/underflow) is accounted for by theorem: relative error <= 5e-15; '
-    'for the trigonometric kernels and for float32 rounding is covered by the correspondence tolerance (1e-12 double - scipp unit-conversion factors carry up to ~4e-14 - and 2e-6 single; the property allows 1e-11 / 1e-5)',
+    'FloatErr.v: wavelength_from_tof, energy_from_tof, energy_from_wavelength, wavelength_from_energy with float64 operands: every '
+    'rounding step (binary64, unbounded exponent range = no overflow/underflow) is accounted for by theorem: relative error <= 5e-15',
+    'FloatErrTrig.v: dspacing_from_tof/_wavelength/_energy, Q_from_wavelength, wavelength_from_Q with float64 operands and 0 < two_theta <= PI: '
+    'every rounding step (constants, unit multipliers, rounded half angle) accounted for by theorem, relative error <= 4e-15, under the named '
+    'hypothesis "libm sin within 1 ulp": for every binary64 y the library sine returns sin y with relative error <= 2^-52 (hypothesis of each '
+    'theorem, not an axiom)',
+    'FloatErr32.v: all nine kernels with float32 (or mixed) operands: every value obtainable with any placement of float32/float64 casts and '
+    'binary32-or-binary64 rounding of every operation is within 5e-6 (property: 1e-5), under "libm sinf/sin within 1 ulp of binary32 '
+    '(relative 2^-23) on its actual argument" and no overflow/underflow',
+    'correspondence tolerance: 1e-12 double (scipp unit-conversion factors carry up to ~4e-14), 2e-6 single; the property allows 1e-11 / 1e-5',
 ]
 M = 'scippneutron.conversion.tof:'
 # kernel / composition name -> (operand kinds in model argument order, expression)
@@ -86,7 +96,9 @@ def gen_groups(rng, n_groups):
                 vals = [rng.choice([math.pi, math.pi / 2, 1e-6, 1e-3, rng.uniform(1e-3, math.pi)])
                         for _ in range(n)]
                 vals = [min(v, math.pi) for v in vals]
-                dt = rng.choice(['float64', 'float32']) if single else 'float64'
+                # a single-precision angle next to a double-precision data operand is a valid mix: the result is
+                # float64 and must be double-accurate w.r.t. the angle as stored
+                dt = rng.choice(['float64', 'float32']) if single else rng.choice(['float64', 'float64', 'float32'])
                 unit = rng.choice(NAT[nm][0])
                 if rng.random() < 0.15:
                     # integer angles (whole degrees / whole radians) are valid operands
@@ -193,8 +205,8 @@ def search(ctx, broken):
     groups = gen_groups(rng, 120)
     res = ctx.run_impl('kernels_impl.py', {'groups': [{k: g[k] for k in ('id', 'expr', 'operands')} for g in groups]})
     found = []
-    # the closed formulas need sin/sqrt; use Python floats with a loose 1e-9 gate: a wrong formula,
-    # constant, unit or sign is off by far more than that
+    # the closed formulas need sin/sqrt; use Python floats (accurate to ~1e-15 here) with the property's
+    # own gates 1e-11 / 1e-5
     import math
     hq = kcorr.fmt(res['constants']['h']['value'])
     mq = kcorr.fmt(res['constants']['m_n']['value'])
@@ -232,7 +244,7 @@ def search(ctx, broken):
                 continue
             got = float(Fraction(int(v[0]), int(v[1]))) * float(Fraction(int(rr['unit']['mult'][0]), int(rr['unit']['mult'][1])))
             want = FORM[g['kname']](*args)
-            tol = 1e-9 if rr['dtype'] != 'float32' else 1e-4
+            tol = 1e-11 if rr['dtype'] != 'float32' else 1e-5      # the property's own bounds
             if not (abs(got - want) <= tol * abs(want)):
                 d = {'kernel': g['kname'], 'si_args': args, 'impl_si': got, 'formula_si': want,
                      'operands': {nm: kcorr.describe(r['operands'][nm], idx.get(r['operands'][nm]['dims'][0], 0) if r['operands'][nm]['dims'] else 0) for nm in order}}
@@ -254,5 +266,6 @@ LEVEL_TEXT = ('Proof: for all positive inputs in arbitrary units and all numeric
               'routes agree and round trips are identities (over R, h and m_n arbitrary positive). The model of scipp '
               'primitives is validated against the real scipp by ~1e3 (quick) element-wise cases compared inside Coq against exact rationals.')
 LEVEL_NOTE = ('Trusted: Coq kernel; std-lib real-number axioms (sig_forall_dec, sig_not_dec, functional_extensionality_dep, classic); '
-              'py2coq translator; Sem/Val.v model of scipp element semantics; rounding handled by tolerance in the correspondence, not by theorem.')
+              'py2coq translator; Sem/Val.v model of scipp element semantics; accumulated rounding error bounded by theorem for all nine kernels in binary64 and binary32 '
+              '(FloatErr*.v; named hypotheses: libm sine within 1 ulp, no overflow/underflow).')
 TECHNIQUE = 'Coq proof on regenerated terms (cbv + field over R) + vm_compute correspondence against the implementation'
